@@ -88,6 +88,137 @@ def component_cases(chk, tier):
     return strings
 
 
+HID = {"HTMLURLHandler": "HUrl", "BuckGophermapHandler": "HGophermap", "MaildirFolderHandler": "HMaildirFolder",
+       "MaildirMessageHandler": "HMaildirMessage", "UMNDirHandler": "HUMNDir", "DirHandler": "HDir",
+       "HTMLFileTitleHandler": "HHtmlTitle", "MBoxMessageHandler": "HMboxMessage", "MBoxFolderHandler": "HMboxFolder",
+       "FileHandler": "HFile", "CompressedFileHandler": "HCompressed", "TALFileHandler": "HTal", "PYGHandler": "HPyg",
+       "ExecHandler": "HExec", "ZIPHandler": "HZip", "URLTypeRewriter": "HRewriter"}
+HMOD = {"HUrl": "url.HTMLURLHandler", "HGophermap": "gophermap.BuckGophermapHandler", "HMaildirFolder": "mbox.MaildirFolderHandler",
+        "HMaildirMessage": "mbox.MaildirMessageHandler", "HUMNDir": "UMN.UMNDirHandler", "HDir": "dir.DirHandler",
+        "HHtmlTitle": "html.HTMLFileTitleHandler", "HMboxMessage": "mbox.MBoxMessageHandler", "HMboxFolder": "mbox.MBoxFolderHandler",
+        "HFile": "file.FileHandler", "HTal": "tal.TALFileHandler", "HPyg": "pyg.PYGHandler", "HExec": "scriptexec.ExecHandler",
+        "HZip": "ZIP.ZIPHandler", "HRewriter": "url.URLTypeRewriter"}
+PYG_TRUE = ("from pygopherd.handlers.pyg import PYGBase\nfrom pygopherd.gopherentry import GopherEntry\n\n\n"
+            "class PYGMain(PYGBase):\n    def canhandlerequest(self):\n        return True\n")
+FROM_RE = (rb"From \s*[^\s]+\s+\w\w\w\s+\w\w\w\s+\d?\d\s+\d?\d:\d\d(:\d\d)?(\s+[^\s]+)?\s+\d\d\d\d\s*[^\s]*\s*$")
+
+
+def _zip_bytes():
+    import io
+    import zipfile
+    b = io.BytesIO()
+    with zipfile.ZipFile(b, "w") as z:
+        z.writestr("inner.txt", "inner\n")
+        z.writestr("d/x.txt", "x\n")
+    return b.getvalue().decode("latin-1")
+
+
+def tree_to_coq(tree):
+    """tree spec (list of entries) -> Gallina `tree` literal"""
+    import re as _re
+    root = {}
+    for e in tree:
+        parts = e["path"].strip("/").split("/")
+        d = root
+        for p in parts[:-1]:
+            d = d.setdefault(p, {})
+        kind = e.get("kind", "file")
+        if kind == "dir":
+            d.setdefault(parts[-1], {})
+        elif kind == "file":
+            data = e.get("data", "").encode("latin-1")
+            first = data.split(b"\n", 1)[0] + (b"\n" if b"\n" in data else b"")
+            import io
+            import zipfile
+            d[parts[-1]] = ("file", bool(e.get("mode", 0o644) & 0o001), bool(_re.match(FROM_RE, first)),
+                            zipfile.is_zipfile(io.BytesIO(data)))
+        else:
+            d[parts[-1]] = ("other",)
+
+    def conv(node):
+        if isinstance(node, dict):
+            return "(TDir [" + "; ".join("(%s, %s)" % (coq_str(k.encode("latin-1").decode("utf-8", "surrogateescape")), conv(v))
+                                         for k, v in node.items()) + "])"
+        if node[0] == "file":
+            return "(TFile %s %s %s)" % tuple(coq_bool(x) for x in node[1:])
+        return "TOther"
+    return conv(root)
+
+
+def k_chain(chk, tier):
+    rng = chk.rng
+    tree = base_tree(rng) + [
+        {"path": "echo.pyg", "data": PYG_TRUE, "mode": 0o755, "mtime": 1_700_000_000},
+        {"path": "noexec.pyg", "data": PYG_TRUE, "mtime": 1_700_000_000},
+        {"path": "arch.zip", "data": _zip_bytes(), "mtime": 1_700_000_000},
+        {"path": "fake.zip", "data": "not a zip", "mtime": 1_700_000_000},
+        {"path": "dir1/inner.zip", "data": _zip_bytes(), "mtime": 1_700_000_000},
+        {"path": "pipe", "kind": "fifo"},
+        {"path": "t.html.tal", "data": "<html></html>", "mtime": 1_700_000_000},
+        {"path": "x.gophermap", "data": "iinfo\n", "mtime": 1_700_000_000},
+        {"path": "page.htm", "data": "<title>x</title>", "mtime": 1_700_000_000},
+        {"path": "script2.sh", "data": "#!/bin/sh\necho hi\n", "mode": 0o750, "mtime": 1_700_000_000},
+    ]
+    names = ["a.txt", "b.html", "read me.txt", "dir1", "dir1/c.txt", "dir1/sub", "notes", "notes/gophermap", "mail.mbox", "md",
+             "md/new", "script.sh", "script2.sh", "echo.pyg", "noexec.pyg", "arch.zip", "fake.zip", "dir1/inner.zip", "pipe", "t.html.tal",
+             "x.gophermap", "page.htm", "\udcae.txt", "nonexistent", "a.txt.abstract", "dir1/.abstract"]
+    sels = []
+    for n in names:
+        s = "/" + n
+        sels += [s, s + "/", s + "|/MBOX-MESSAGE/1", s + "|/MAILDIR-MESSAGE/2", s + "?a b", s + "|x", s + "|/MBOX-MESSAGE/0",
+                 s + "|/MBOX-MESSAGE/01", s + "|/MBOX-MESSAGE/", s + "|/MBOX-MESSAGE/1x", "/1" + s, "/x" + s, s + "/.", s + "/inner.txt",
+                 s + "/d/x.txt", s + "/d", s + "/nonexistent", s + "\x00", s + "/..", "/." + s, s + "?/MBOX-MESSAGE/1|y", s + "|a?b"]
+    sels += ["/", "", "/1/", "/1//", "//", "/URL:http://x/", "URL:http://x/../y", "/URL:x", "/URL:http://a\"b", "/1/URL:http://x/",
+             "/1/1/a.txt", "/arch.zip/../a.txt", "/arch.zip?x", "/dir1/inner.zip/inner.txt", "/1/arch.zip/inner.txt", "/1/echo.pyg",
+             "/arch.zip\n", "/./a.txt", "/dir1//c.txt"]
+    if tier == "thorough":
+        for _ in range(1500):
+            s = "/" + rng.choice(names) + rng.choice(["", "/", "|", "?", "/.", "|/MBOX-MESSAGE/", "/inner.txt"]) + \
+                "".join(rng.choice("ab/.|?1 0") for _ in range(rng.randrange(0, 5)))
+            sels.append(s)
+    lists = {
+        "default": ["HUrl", "HGophermap", "HMaildirFolder", "HMaildirMessage", "HUMNDir", "HHtmlTitle", "HMboxMessage", "HMboxFolder", "HFile"],
+        "full": ["HUrl", "HGophermap", "HMaildirFolder", "HMaildirMessage", "HUMNDir", "HTal", "HHtmlTitle", "HMboxMessage", "HMboxFolder",
+                 "HPyg", "HExec", "HZip", "HFile", "HRewriter"],
+        "buck": ["HGophermap", "HUrl", "HFile", "HDir"],
+        "rewriter-first": ["HRewriter", "HUrl", "HZip", "HExec", "HFile", "HUMNDir"],
+    }
+    jobs = []
+    for lname, hl in lists.items():
+        cfg = {"handlers.HandlerMultiplexer": {"handlers": "[" + ", ".join(HMOD[h] for h in hl) + "]"},
+               "handlers.ZIP.ZIPHandler": {"enabled": "true" if "HZip" in hl else "false"}}
+        jobs.append({"op": "choose", "tree": tree, "config": cfg, "selectors": sels, "_l": lname})
+    res = impl_run_parallel(jobs, chunks=len(jobs))
+    tcoq = tree_to_coq(tree)
+    cases, info = [], []
+    unexpected_exc = []
+    for j, r in zip(jobs, res):
+        if not r["ok"]:
+            raise RuntimeError(r["err"] + "\n" + r.get("tb", ""))
+        hl = lists[j["_l"]]
+        for sel, o in zip(sels, r["res"]):
+            if o["cls"] and o["cls"].startswith("EXC:"):
+                unexpected_exc.append((j["_l"], sel, o["cls"]))
+                continue
+            rc = "None" if o["cls"] is None else "(Some (%s, %s))" % (HID[o["cls"]], coq_str(o["sel"]))
+            cases.append("((%s, (%s, %s)), (%s, (%s, (false, %s))))" % (
+                "TREE", "[" + "; ".join(hl) + "]", coq_bool("HZip" in hl), coq_str(sel), coq_bool(o["mime_html"]), rc))
+            info.append((j["_l"], sel, o))
+            chk.count(("choose", j["_l"], sel), nontrivial=o["cls"] is not None)
+    mism, err, nsh = coq_eval("C01", "k_choose", "Lib.Str Model.Handlers Corr.K01", "chk_choose", cases, shard=400,
+                              pre="Definition TREE : tree := %s." % tcoq)
+    dist = {}
+    for _, _, o in info:
+        dist[o["cls"] or "NotFound"] = dist.get(o["cls"] or "NotFound", 0) + 1
+    chk.coverage["correspondence_chain"] = {"cases": len(cases), "shards": nsh, "mismatches": len(mism), "errors": err,
+                                            "handler_lists": list(lists), "chosen_distribution": dist,
+                                            "implementation_exceptions": unexpected_exc[:10]}
+    chk.sample({"kind": "handler-choice", "handlers": info[3][0], "selector": info[3][1], "chosen": info[3][2]["cls"]})
+    detail = {"mismatches": [{"handlers": info[i][0], "selector": info[i][1], "impl": info[i][2]} for i in mism[:15]], "errors": err,
+              "exceptions": unexpected_exc[:10]}
+    return bool(mism or err or unexpected_exc), detail
+
+
 def run(tier):
     chk = Check("C01", tier)
     chk.proofs(extra_files=["Corr/K01.v"])
@@ -154,6 +285,12 @@ def run(tier):
         chk.violation({"what": "BaseHandler.isrequestsecure accepts a selector containing a climbing substring",
                        "selector": accepted[0], "impl_isrequestsecure": True, "more": accepted[1:10]},
                       tag="filter-accepts")
+
+    # ---------------- K (handler chain) ----------------
+    kc_broken, kc_detail = k_chain(chk, tier)
+    if kc_broken:
+        k_broken = True
+        k_detail["handler_choice"] = kc_detail
 
     # ---------------- oracle search (end to end) ----------------
     names = ["a.txt", "dir1", "dir1/c.txt", "notes", "mail.mbox", "md", "script.sh", "b.html", "read me.txt",
